@@ -235,3 +235,281 @@ Proof.
   rewrite Eg, Eh. split; [|intros ->; reflexivity].
   intros H. apply (index_of_inj _ 0 _ _ (Z.le_refl 0) Ig H).
 Qed.
+
+Ltac Zify.zify_post_hook ::= Z.to_euclidean_division_equations.
+
+(* ---------- VarStore.subset_varidxes: every used index still addresses the same delta row ---------- *)
+Lemma zmap_from_nth {A B} (f : Z -> A -> B) : forall (l : list A) i k d d',
+  (k < length l)%nat -> nth k (zmap_from f i l) d' = f (i + Z.of_nat k) (nth k l d).
+Proof.
+  induction l as [|x r IH]; intros i k d d' H; [cbn in H; lia|].
+  destruct k as [|k]; cbn [zmap_from nth].
+  - f_equal. lia.
+  - cbn in H. rewrite (IH (i + 1) k d d') by lia. f_equal. lia.
+Qed.
+Lemma zmap_from_length {A B} (f : Z -> A -> B) : forall (l : list A) i, length (zmap_from f i l) = length l.
+Proof. induction l as [|x r IH]; intros i; cbn; [reflexivity|rewrite IH; reflexivity]. Qed.
+
+(* looking a key up in an index map built over a list of minors: any minor in the list is found, and what it maps to is the
+   position of SOME occurrence of a minor with the same key *)
+Lemma lookup_zmap_minors major newMajor : forall minors i m,
+  In m minors -> (forall a, In a minors -> 0 <= a < 65536) ->
+  exists j, (j < length minors)%nat /\ nth j minors 0 = m /\
+    lookupZ (zmap_from (fun newMinor minor => (mk_idx major minor, mk_idx newMajor newMinor)) i minors) (mk_idx major m)
+    = Some (mk_idx newMajor (i + Z.of_nat j)).
+Proof.
+  induction minors as [|a r IH]; intros i m Hin Hr; [contradiction|].
+  cbn [zmap_from lookupZ].
+  destruct (mk_idx major a =? mk_idx major m) eqn:E.
+  - apply Z.eqb_eq in E. unfold mk_idx in E. assert (a = m) by lia. subst a.
+    exists 0%nat. cbn. split; [lia|split; [reflexivity|f_equal; f_equal; lia]].
+  - destruct Hin as [->|Hin]; [rewrite Z.eqb_refl in E; discriminate|].
+    destruct (IH (i + 1) m Hin (fun a0 Ha => Hr a0 (or_intror Ha))) as [j [Hj [Hn Hl]]].
+    exists (S j). cbn [length nth]. split; [lia|split; [exact Hn|]]. rewrite Hl. f_equal. f_equal. lia.
+Qed.
+
+Lemma lookupZ_app_skip m1 m2 k : (forall a b, In (a, b) m1 -> a <> k) -> lookupZ (m1 ++ m2) k = lookupZ m2 k.
+Proof.
+  induction m1 as [|[a b] r IH]; intros H; [reflexivity|]. cbn [app lookupZ].
+  destruct (a =? k) eqn:E; [apply Z.eqb_eq in E; exfalso; apply (H a b (or_introl eq_refl)); exact E|].
+  apply IH. intros a0 b0 Hin. apply (H a0 b0). right. exact Hin.
+Qed.
+Lemma lookupZ_app_found m1 m2 k v : lookupZ m1 k = Some v -> lookupZ (m1 ++ m2) k = Some v.
+Proof.
+  induction m1 as [|[a b] r IH]; cbn [app lookupZ]; [discriminate|]. destruct (a =? k); [trivial|exact IH].
+Qed.
+
+Lemma zmap_from_In {A B} (f : Z -> A -> B) : forall (l : list A) i y, In y (zmap_from f i l) ->
+  exists k x, (k < length l)%nat /\ nth_error l k = Some x /\ y = f (i + Z.of_nat k) x.
+Proof.
+  induction l as [|x r IH]; intros i y H; [contradiction|]. cbn [zmap_from In] in H. destruct H as [<-|H].
+  - exists 0%nat, x. cbn. split; [lia|split; [reflexivity|f_equal; lia]].
+  - destruct (IH (i + 1) y H) as [k [x0 [Hk [Hn ->]]]]. exists (S k), x0. cbn. split; [lia|split; [exact Hn|f_equal; lia]].
+Qed.
+
+Lemma lookup_index_map {A} : forall (l : list A) i k, i <= k < i + Z.of_nat (length l) ->
+  lookupZ (zmap_from (fun m (_ : A) => (m, m)) i l) k = Some k.
+Proof.
+  induction l as [|x r IH]; intros i k H; [cbn in H; lia|]. cbn [zmap_from lookupZ].
+  destruct (i =? k) eqn:E; [apply Z.eqb_eq in E; subst; reflexivity|].
+  apply Z.eqb_neq in E. apply IH. cbn [length] in H. lia.
+Qed.
+
+Lemma used_of_In used m v : In v (used_of used m) <-> In v used /\ v <> NO_VARIATION /\ vmajor v = m.
+Proof.
+  unfold used_of. rewrite filter_In, andb_true_iff, negb_true_iff, Z.eqb_neq, Z.eqb_eq. tauto.
+Qed.
+Lemma used_minors_In used m a : In a (used_minors used m) <-> exists v, In v used /\ v <> NO_VARIATION /\ vmajor v = m /\ vminor v = a.
+Proof.
+  unfold used_minors. rewrite uniq_sort_In, in_map_iff. split.
+  - intros [v [<- H]]. apply used_of_In in H. exists v. tauto.
+  - intros [v [H1 [H2 [H3 <-]]]]. exists v. split; [reflexivity|apply used_of_In; tauto].
+Qed.
+Lemma vminor_range v : 0 <= vminor v < 65536.
+Proof. unfold vminor. lia. Qed.
+Lemma memz_In x l : memz x l = true <-> In x l.
+Proof.
+  unfold memz. rewrite existsb_exists. split; [intros [y [H E]]; apply Z.eqb_eq in E; subst; exact H|intros H; exists x; split; [exact H|apply Z.eqb_refl]].
+Qed.
+Lemma mk_idx_split v : 0 <= v -> mk_idx (vmajor v) (vminor v) = v.
+Proof. intros H. unfold mk_idx, vmajor, vminor. lia. Qed.
+
+(* one VarData: the used rows survive and the map sends each used index to a position holding the same row *)
+Lemma subset_data_sound items major newMajor used retain adv v :
+  0 <= major -> (major = 0 -> newMajor = 0) -> Z.of_nat (length items) <= 65536 ->
+  (forall a, In a adv -> 0 <= a < 65536) ->
+  In v used -> v <> NO_VARIATION -> 0 <= v -> vmajor v = major -> (Z.to_nat (vminor v) < length items)%nat ->
+  let '(ni, mp) := subset_data items major newMajor (used_minors used major) retain adv in
+  (exists k, lookupZ mp v = Some (mk_idx newMajor k) /\ 0 <= k /\ nth (Z.to_nat k) ni [] = get_row items (vminor v)) /\
+  (forall a b, In (a, b) mp -> vmajor a = major).
+Proof.
+  intros Hmaj Hnew Hlen Hadv Hin Hno Hv Hvm Hrow.
+  assert (Hum: In (vminor v) (used_minors used major)) by (apply used_minors_In; exists v; tauto).
+  pose proof (vminor_range v) as Hr.
+  unfold subset_data. destruct ((major =? 0) && retain) eqn:R.
+  - apply andb_true_iff in R. destruct R as [R _]. apply Z.eqb_eq in R. rewrite (Hnew R). rewrite R in *. clear R. lazy beta iota zeta. split.
+    + exists (vminor v). split; [|split; [lia|]].
+      * assert (v = vminor v) by (rewrite <- (mk_idx_split v Hv) at 1; rewrite Hvm; unfold mk_idx; lia).
+        rewrite H at 1. unfold mk_idx. replace (0 * 65536 + vminor v) with (vminor v) by lia.
+        apply lookup_index_map. lia.
+      * erewrite (zmap_from_nth _ items 0 (Z.to_nat (vminor v)) []) by exact Hrow. unfold get_row.
+        replace (0 + Z.of_nat (Z.to_nat (vminor v))) with (vminor v) by lia.
+        replace (memz (vminor v) (used_minors used 0)) with true by (symmetry; apply memz_In; exact Hum). reflexivity.
+    + intros a b Hab. apply zmap_from_In in Hab. destruct Hab as [k [x [Hk [_ E]]]]. injection E as -> _. unfold vmajor. lia.
+  - lazy beta iota zeta. set (minors := if major =? 0 then uniq_sort adv ++ filter (fun m => negb (memz m adv)) (used_minors used major) else used_minors used major).
+    assert (Hm: In (vminor v) minors).
+    { unfold minors. destruct (major =? 0); [|exact Hum]. apply in_or_app.
+      destruct (memz (vminor v) adv) eqn:M; [left; apply uniq_sort_In; apply memz_In; exact M|right; apply filter_In; split; [exact Hum|rewrite M; reflexivity]]. }
+    assert (Hrange: forall a, In a minors -> 0 <= a < 65536).
+    { unfold minors. intros a Ha. destruct (major =? 0).
+      - apply in_app_or in Ha. destruct Ha as [Ha|Ha]; [apply (proj1 (uniq_sort_In _ _)) in Ha; apply Hadv; exact Ha|].
+        apply filter_In in Ha. destruct Ha as [Ha _]. apply (proj1 (used_minors_In _ _ _)) in Ha. destruct Ha as [u [_ [_ [_ <-]]]]. apply vminor_range.
+      - apply (proj1 (used_minors_In _ _ _)) in Ha. destruct Ha as [u [_ [_ [_ <-]]]]. apply vminor_range. }
+    split.
+    + destruct (lookup_zmap_minors major newMajor minors 0 (vminor v) Hm Hrange) as [j [Hj [Hn Hl]]].
+      exists (Z.of_nat j). split; [|split; [lia|]].
+      * rewrite <- (mk_idx_split v Hv) at 1. rewrite Hvm. rewrite Hl. f_equal.
+      * rewrite Nat2Z.id. rewrite (nth_indep _ [] (get_row items 0)) by (rewrite map_length; exact Hj).
+        rewrite map_nth. rewrite Hn. reflexivity.
+    + intros a b Hab. apply zmap_from_In in Hab. destruct Hab as [k [x [Hk [Hx E]]]]. injection E as -> _.
+      apply nth_error_In in Hx. specialize (Hrange x Hx). unfold vmajor, mk_idx. lia.
+Qed.
+
+Lemma subset_store_sound used retain adv : forall vds major newMajor i items v,
+  0 <= major -> (major = 0 -> newMajor = 0) ->
+  Forall (fun it : list row => Z.of_nat (length it) <= 65536) vds ->
+  (forall a, In a adv -> 0 <= a < 65536) ->
+  In v used -> v <> NO_VARIATION -> 0 <= v -> vmajor v = major + Z.of_nat i ->
+  nth_error vds i = Some items -> (Z.to_nat (vminor v) < length items)%nat ->
+  let '(ns, mp) := subset_store vds major newMajor used retain adv in
+  exists j k, lookupZ mp v = Some (mk_idx (newMajor + Z.of_nat j) k) /\ 0 <= k /\
+              nth (Z.to_nat k) (nth j ns []) [] = get_row items (vminor v).
+Proof.
+  induction vds as [|it0 rest IH]; intros major newMajor i items v Hmaj Hnew Hlen Hadv Hin Hno Hv Hvm Hnth Hrow;
+    [destruct i; discriminate|].
+  cbn [subset_store].
+  inversion Hlen as [|? ? Hl0 Hlrest]; subst.
+  destruct (used_of used major) as [|u0 us] eqn:U.
+  - (* nothing of this VarData is used: it is dropped, numbering of the kept ones does not advance *)
+    destruct i as [|i].
+    + exfalso. assert (In v (used_of used major)) by (apply used_of_In; split; [exact Hin|split; [exact Hno|lia]]).
+      rewrite U in H. exact H.
+    + cbn [nth_error] in Hnth.
+      apply (IH (major + 1) newMajor i items v); try assumption; try lia.
+  - destruct i as [|i].
+    + cbn [nth_error] in Hnth. apply Some_inj in Hnth. subst it0.
+      pose proof (subset_data_sound items major newMajor used retain adv v Hmaj Hnew Hl0 Hadv Hin Hno Hv ltac:(lia) Hrow) as D.
+      destruct (subset_data items major newMajor (used_minors used major) retain adv) as [ni mp].
+      destruct (subset_store rest (major + 1) (newMajor + 1) used retain adv) as [r m].
+      destruct D as [[k [Hl [Hk Hr]]] _].
+      exists 0%nat, k. split; [|split; [exact Hk|exact Hr]].
+      rewrite (lookupZ_app_found mp m v _ Hl). f_equal. f_equal. lia.
+    + cbn [nth_error] in Hnth.
+      assert (U0: In u0 used /\ u0 <> NO_VARIATION /\ vmajor u0 = major) by (apply used_of_In; rewrite U; left; reflexivity).
+      pose proof (IH (major + 1) (newMajor + 1) i items v ltac:(lia) ltac:(lia) Hlrest Hadv Hin Hno Hv ltac:(lia) Hnth Hrow) as R.
+      (* the keys of this VarData's map all carry its major: the later index is not among them *)
+      assert (K: forall ni mp, subset_data it0 major newMajor (used_minors used major) retain adv = (ni, mp) ->
+                 forall a b, In (a, b) mp -> vmajor a = major).
+      { intros ni mp E a b Hab.
+        clear - E Hab Hadv Hl0 Hmaj. unfold subset_data in E.
+        destruct ((major =? 0) && retain) eqn:Rt.
+        + apply pair_equal_spec in E. destruct E as [_ <-]. apply zmap_from_In in Hab.
+          destruct Hab as [k [x [Hk [_ Eq]]]]. injection Eq as -> _.
+          apply andb_true_iff in Rt. destruct Rt as [Rt _]. apply Z.eqb_eq in Rt. unfold vmajor. lia.
+        + apply pair_equal_spec in E. destruct E as [_ <-]. apply zmap_from_In in Hab.
+          destruct Hab as [k [x [Hk [Hx Eq]]]]. injection Eq as -> _. apply nth_error_In in Hx.
+          assert (0 <= x < 65536).
+          { destruct (major =? 0).
+            - apply in_app_or in Hx. destruct Hx as [Hx|Hx]; [apply (proj1 (uniq_sort_In _ _)) in Hx; apply Hadv; exact Hx|].
+              apply filter_In in Hx. destruct Hx as [Hx _]. apply (proj1 (used_minors_In _ _ _)) in Hx. destruct Hx as [w [_ [_ [_ <-]]]]. apply vminor_range.
+            - apply (proj1 (used_minors_In _ _ _)) in Hx. destruct Hx as [w [_ [_ [_ <-]]]]. apply vminor_range. }
+          unfold vmajor, mk_idx. lia. }
+      destruct (subset_data it0 major newMajor (used_minors used major) retain adv) as [ni mp] eqn:E.
+      destruct (subset_store rest (major + 1) (newMajor + 1) used retain adv) as [r m].
+      destruct R as [j [k [Hl [Hk Hr]]]].
+      exists (S j), k. split; [|split; [exact Hk|exact Hr]].
+      rewrite lookupZ_app_skip; [rewrite Hl; f_equal; f_equal; lia|].
+      intros a b Hab Ea. subst a. pose proof (K ni mp eq_refl v b Hab). lia.
+Qed.
+
+Theorem varstore_subset_sound store used retain adv v items :
+  Forall (fun it : list row => Z.of_nat (length it) <= 65536) store ->
+  (forall a, In a adv -> 0 <= a < 65536) ->
+  In v used -> v <> NO_VARIATION -> 0 <= v ->
+  nth_error store (Z.to_nat (vmajor v)) = Some items -> (Z.to_nat (vminor v) < length items)%nat ->
+  let '(ns, mp) := varstore_subset store used retain adv in
+  exists j k, lookupZ mp v = Some (mk_idx (Z.of_nat j) k) /\ 0 <= k /\
+              nth (Z.to_nat k) (nth j ns []) [] = get_row items (vminor v).
+Proof.
+  intros Hlen Hadv Hin Hno Hv Hnth Hrow. unfold varstore_subset.
+  assert (Hmj: 0 <= vmajor v) by (unfold vmajor; lia).
+  pose proof (subset_store_sound used retain adv store 0 0 (Z.to_nat (vmajor v)) items v ltac:(lia) ltac:(tauto) Hlen Hadv Hin Hno Hv ltac:(lia) Hnth Hrow) as S.
+  destruct (subset_store store 0 0 used retain adv) as [ns mp]. exact S.
+Qed.
+
+(* ---------- the whole closure (ligature and contextual lookups with nested calls) ---------- *)
+Definition extends {A} (F : list glyph -> A -> list glyph) : Prop := forall s x, exists e, F s x = s ++ e.
+
+Lemma fold_extends {A} (F : list glyph -> A -> list glyph) : extends F -> forall l s, exists e, fold_left F l s = s ++ e.
+Proof.
+  intros HF. induction l as [|x r IH]; intros s; cbn [fold_left]; [exists []; rewrite app_nil_r; reflexivity|].
+  destruct (HF s x) as [e1 E1]. rewrite E1. destruct (IH (s ++ e1)) as [e2 E2]. rewrite E2.
+  exists (e1 ++ e2). rewrite app_assoc. reflexivity.
+Qed.
+
+(* if a chain of extending steps ends where it started, every step was the identity *)
+Lemma fold_fix_all {A} (F : list glyph -> A -> list glyph) : extends F ->
+  forall l s, fold_left F l s = s -> forall x, In x l -> F s x = s.
+Proof.
+  intros HF. induction l as [|y r IH]; intros s H x Hx; [contradiction|]. cbn [fold_left] in H.
+  destruct (HF s y) as [e1 E1]. destruct (fold_extends F HF r (F s y)) as [e2 E2].
+  rewrite E2, E1 in H. rewrite <- app_assoc in H.
+  assert (e1 ++ e2 = []) by (apply (app_inv_head s); rewrite app_nil_r; exact H).
+  apply app_eq_nil in H0. destruct H0 as [-> ->]. rewrite app_nil_r in E1.
+  destruct Hx as [<-|Hx]; [exact E1|]. apply IH; [|exact Hx]. rewrite E1 in E2. rewrite app_nil_r in E2. exact E2.
+Qed.
+
+Lemma apply_rule_extends rec lks cur0 :
+  (forall li pos s, exists e, rec li pos s = s ++ e) -> extends (fun s r => apply_rule rec lks cur0 s r).
+Proof.
+  intros Hrec s r. unfold apply_rule.
+  destruct (is_nil (inter cur0 (cr_first r))); [exists []; rewrite app_nil_r; reflexivity|].
+  destruct (negb (forallb _ (cr_need r))); [exists []; rewrite app_nil_r; reflexivity|].
+  generalize (@nil nat). induction (cr_recs r) as [|[seqi li] rs IH] in s |- *; intros chaos; cbn [fold_left snd].
+  - exists []. rewrite app_nil_r. reflexivity.
+  - match goal with |- context[rec li ?p s] => destruct (Hrec li p s) as [e1 E1]; rewrite E1 end.
+    match goal with |- context[fold_left _ rs (?c, _)] => destruct (IH (s ++ e1) c) as [e2 E2] end.
+    rewrite E2. exists (e1 ++ e2). rewrite app_assoc. reflexivity.
+Qed.
+
+Lemma closure_sub_extends rec lks cur0 :
+  (forall li pos s, exists e, rec li pos s = s ++ e) -> extends (fun s st => closure_sub rec lks cur0 s st).
+Proof.
+  intros Hrec s st. destruct st as [b m|l|rules]; cbn [closure_sub].
+  - apply add_new_prefix.
+  - apply add_new_prefix.
+  - apply (fold_extends _ (apply_rule_extends rec lks cur0 Hrec)).
+Qed.
+
+Lemma closure_lookup_extends lks : forall depth idx cur s, exists e, closure_lookup depth lks idx cur s = s ++ e.
+Proof.
+  induction depth as [|f IH]; intros idx cur s; cbn [closure_lookup]; [exists []; rewrite app_nil_r; reflexivity|].
+  apply (fold_extends _ (closure_sub_extends (closure_lookup f lks) lks _ (IH))).
+Qed.
+
+Definition sub_closed (st : sub) (s : list glyph) : Prop :=
+  match st with
+  | SMap _ m => forall k v, In (k, v) m -> In k s -> forall o, In o v -> In o s
+  | SLig l => forall f r lg, In (f, (r, lg)) l -> In f s -> (forall c, In c r -> In c s) -> In lg s
+  | SCtx _ => True
+  end.
+
+Lemma add_new_fix s gs : add_new s gs = s -> forall o, In o gs -> In o s.
+Proof. intros H o Ho. rewrite <- H. apply add_new_spec. right. exact Ho. Qed.
+
+(* THE COMPUTED CLOSURE IS CLOSED under every substitution and ligature subtable of every lookup applied directly by a feature,
+   and contains the request *)
+Theorem closure_gsub_closed fuel depth lks order : forall s0 s, closure_gsub fuel (S depth) lks order s0 = Some s ->
+  (forall x, In x s0 -> In x s) /\
+  (forall i st, In i order -> In st (nth i lks []) -> sub_closed st s).
+Proof.
+  induction fuel as [|f IH]; intros s0 s H; cbn [closure_gsub] in H; [discriminate|].
+  assert (EXT: extends (fun s1 i => closure_lookup (S depth) lks i None s1)) by (intros s1 i; apply closure_lookup_extends).
+  destruct (Nat.eqb (length (gsub_round (S depth) lks order s0)) (length s0)) eqn:E.
+  - apply Some_inj in H. subst s. split; [auto|].
+    apply Nat.eqb_eq in E. unfold gsub_round in E.
+    destruct (fold_extends _ EXT order s0) as [e P]. rewrite P, app_length in E.
+    assert (e = []) by (destruct e; [reflexivity|cbn in E; lia]). subst e. rewrite app_nil_r in P.
+    intros i st Hi Hst.
+    pose proof (fold_fix_all _ EXT order s0 P i Hi) as Fi. cbn [closure_lookup] in Fi.
+    pose proof (fold_fix_all _ (closure_sub_extends (closure_lookup depth lks) lks s0 (closure_lookup_extends lks depth)) _ _ Fi st Hst) as Fs.
+    destruct st as [b m|l|rules]; cbn [closure_sub sub_closed] in *; [| |exact I].
+    + intros k v Hkv Hk o Ho. apply (add_new_fix _ _ Fs). apply in_flat_map. exists (k, v). split; [exact Hkv|].
+      cbn [fst snd]. replace (memg k s0) with true by (symmetry; apply memg_In; exact Hk). exact Ho.
+    + intros f0 r lg Hl Hf Hr. apply (add_new_fix _ _ Fs). apply in_flat_map. exists (f0, (r, lg)). split; [exact Hl|].
+      cbn [fst snd]. replace (memg f0 s0) with true by (symmetry; apply memg_In; exact Hf).
+      replace (forallb (fun c => memg c s0) r) with true; [left; reflexivity|].
+      symmetry. apply forallb_forall. intros c Hc. apply memg_In. apply Hr. exact Hc.
+  - destruct (IH _ _ H) as [I1 I2]. split; [|exact I2]. intros x Hx. apply I1.
+    unfold gsub_round. destruct (fold_extends _ EXT order s0) as [e P]. rewrite P. apply in_or_app. left. exact Hx.
+Qed.
